@@ -12,7 +12,7 @@ from props import common
 def variants(script, rng, k):
     out = []
     for i in range(k):
-        nl = rng.choice(["\n", "\n", "\r\n", "\r"])
+        nl = rng.choice(["\n", "\n", "\r\n", "\r", "mixed"])
         tab = rng.choice([None, "\t", "    "])
         ends_with_array = script["items"] and script["items"][-1][0] == "arr"
         final = rng.random() < 0.6 or ends_with_array
